@@ -354,6 +354,12 @@ def explicit_pairs(ck):
         mt = PAT.fullmatch(n)
         if mt:
             fam.setdefault((mt.group("base"), mt.group("agg") or ""), []).append((n, mt.group("u"), f, info.get("start_date", datetime.date.min), info.get("end_date", datetime.date.max)))
+    # a documented INPUT in another unit is a member of the family too (eink_selbst_m next to the rule eink_selbst_y)
+    from _gettsim.config import TYPES_INPUT_VARIABLES
+    for name, ty in TYPES_INPUT_VARIABLES.items():
+        mt = PAT.fullmatch(name)
+        if mt and ty in (float, int) and (mt.group("base"), mt.group("agg") or "") in fam:
+            fam[(mt.group("base"), mt.group("agg") or "")].append((name, mt.group("u"), None, datetime.date.min, datetime.date.max))
     n_pairs = 0
     for key, members in sorted(fam.items()):
         for i in range(len(members)):
@@ -364,8 +370,10 @@ def explicit_pairs(ck):
                 lo, hi = max(a[3], b[3]), min(a[4], b[4])
                 if lo > hi:
                     continue
-                if b[0] in inspect.signature(a[2]).parameters:
-                    a, b = b, a            # the rule that consumes the other one is evaluated second
+                if a[2] is None and b[2] is None:
+                    continue
+                if b[2] is None or (a[2] is not None and b[0] in inspect.signature(a[2]).parameters):
+                    a, b = b, a            # the rule that consumes the other one (or the input) is evaluated second
                 # the overlap's last day if it lies in the past, else 2022-01-01 or the first day of the overlap
                 date = hi if hi < datetime.date(2022, 1, 1) else max(lo, datetime.date(2022, 1, 1))
                 n_pairs += 1
@@ -380,8 +388,14 @@ def _explicit_pair(ck, date, a, b):
     label = f"explicit {nb} == {na} * {fac_ba} @{date}"
     try:
         P, _ = gt.env(date)
-        kwa, sa = gt.rule_args(fa, P)
-        va, ctxa = R.run(fa, kwargs=kwa)
+        if fa is None:
+            # a documented input: a free value (of its documented type)
+            from _gettsim.config import TYPES_INPUT_VARIABLES
+            va = R.sym_for(na, TYPES_INPUT_VARIABLES[na])
+            sa, ctxa = {na: va}, R.Ctx()
+        else:
+            kwa, sa = gt.rule_args(fa, P)
+            va, ctxa = R.run(fa, kwargs=kwa)
         if va is None:
             raise R.Unsupported(f"{na} raises on every path")
         ta = R.term_of(va, float)
@@ -419,7 +433,7 @@ def _explicit_pair(ck, date, a, b):
     errs = [g for g, k, w in list(ctxa.errors) + list(ctxb.errors)]
     pre = list(ctxa.assumptions) + list(ctxb.assumptions) + ([z3.Not(z3.Or(errs))] if errs else [])
     want = ta * zfr(fac_ba)
-    r, m = ck.oblige(label, pre + [zabs(tb - want) > zfr(REL) * zabs(want) + zfr(fractions.Fraction(1, 10 ** 9))], 60,
+    r, m = ck.oblige(label, pre + [zabs(tb - want) > zfr(REL) * zabs(want) + zfr(fractions.Fraction(1, 10 ** 6))], 60,
                      sample={"rules": [na, nb], "date": str(date), "claim": f"{nb} = {na} x {fac_ba}", "free_arguments_of_the_second_rule": free})
     ck.nontrivial.add(("explicit-pair", na, nb))
     if r != "sat":
@@ -427,7 +441,7 @@ def _explicit_pair(ck, date, a, b):
     row = {k: R.model_value(m, s_) for k, s_ in sa.items()}
     row.update({k: R.model_value(m, kwb[k]) for k in free})
     rep = _replay_pair(date, na, nb, row, fac_ba)
-    what = f"{nb} and {na} are both hand-written rules at {date} but do not differ by the documented factor {float(fac_ba):.6g}: inputs {row} -> {rep}"
+    what = f"{nb} (hand-written rule) and {na} ({'documented input' if fa is None else 'hand-written rule'}) at {date} do not differ by the documented factor {float(fac_ba):.6g}: inputs {row} -> {rep}"
     if rep.get("fails"):
         ck.violation(["explicit-pair", na, nb], what, {"kind": "pair", "a": na, "b": nb, "date": str(date), "row": row, "fac": [fac_ba.numerator, fac_ba.denominator]})
     elif free:
@@ -441,14 +455,16 @@ def _replay_pair(date, na, nb, row, fac):
     from gettsim import compute_taxes_and_transfers
     P, F = gt.env(date)
     df = pd.DataFrame({"p_id": [0], "hh_id": [0], **{k: [v] for k, v in row.items()}})
+    targets = [t for t in (na, nb) if t not in row]
     with warnings.catch_warnings():
         warnings.simplefilter("ignore")
         try:
-            out = compute_taxes_and_transfers(df, P, F, targets=[na, nb], rounding=False)
+            out = compute_taxes_and_transfers(df, P, F, targets=targets, rounding=False)
         except Exception as e:   # noqa: BLE001
             return {"raises": f"{type(e).__name__}: {e}"[:160], "fails": False}
-    a, b = float(out[na].iloc[0]), float(out[nb].iloc[0])
-    return {na: a, nb: b, "fails": abs(b - a * float(fac)) > 1e-9 + 1e-12 * abs(a * float(fac))}
+    a = float(out[na].iloc[0]) if na in targets else float(row[na])
+    b = float(out[nb].iloc[0]) if nb in targets else float(row[nb])
+    return {na: a, nb: b, "fails": abs(b - a * float(fac)) > 1e-7 + 1e-12 * abs(a * float(fac))}
 
 
 def run(tier):
